@@ -607,7 +607,7 @@ func TestC24(t *testing.T) {
 			emit(e, pc.adds, pc.procs, "corpus")
 		}
 	}
-	n := r.N(50, 1000)
+	n := r.N(50, 600)
 	for i := 0; i < n; i++ {
 		mode := 0
 		switch i % 10 {
